@@ -621,33 +621,45 @@ func (v *FV) heapSet(s *Snapshot, name string, t Term) {
 }
 
 func (v *FV) havocAll(s *Snapshot) {
-	// the ghost call trace of function values survives arbitrary effects
-	keep := map[string]Term{}
+	prev := &Snapshot{ep: s.ep, over: s.over}
+	s.ep = v.newEpoch(0)
+	s.over = map[string]Term{}
+	v.preserveAcrossHavoc(prev, s)
+}
+
+// preserveAcrossHavoc carries over what foreign code cannot change: the ghost call trace,
+// fields declared stable, and private / effectively-final local variable cells.
+func (v *FV) preserveAcrossHavoc(prev, s *Snapshot) {
+	v.preserveAcrossHavocIn(prev, s, nil)
+}
+
+// loopBody != nil: havoc at a loop head; cells assigned inside the loop are not preserved.
+func (v *FV) preserveAcrossHavocIn(prev, s *Snapshot, loopBody map[*ssa.BasicBlock]bool) {
 	for _, g := range []string{"CALLS", "ARGNN"} {
 		if _, ok := v.arrays[g]; ok {
-			keep[g] = v.heapGet(s, g)
+			s.over[g] = v.heapGet(prev, g)
 		}
 	}
-	// fields declared stable (written only during construction; checked syntactically)
 	for a := range v.stableArrays {
-		keep[a] = v.heapGet(s, a)
+		s.over[a] = v.heapGet(prev, a)
 	}
-	// cells of local variables of the functions being executed that cannot be reached by
-	// foreign code (captured only by closures that are called/deferred right here)
-	type cellVal struct{ arr, ref, val string }
-	var cells []cellVal
 	for _, pc := range v.protectedCells {
-		cells = append(cells, cellVal{pc.arr, pc.ref, fmt.Sprintf("(select %s %s)", v.heapGet(s, pc.arr), pc.ref)})
-	}
-	s.ep = v.newEpoch(0)
-	s.over = keep
-	for _, c := range cells {
-		val := v.define("keepcell", strings.TrimSuffix(strings.TrimPrefix(v.arrSort(c.arr), "(Array Int "), ")"), c.val)
-		v.heapSet(s, c.arr, fmt.Sprintf("(store %s %s %s)", v.heapGet(s, c.arr), c.ref, val))
+		if _, isStable := v.stableArrays[pc.arr]; isStable {
+			continue
+		}
+		if loopBody != nil && !pc.final && storedInBlocks(pc.alloc, loopBody) {
+			continue
+		}
+		val := v.define("keepcell", strings.TrimSuffix(strings.TrimPrefix(v.arrSort(pc.arr), "(Array Int "), ")"), fmt.Sprintf("(select %s %s)", v.heapGet(prev, pc.arr), pc.ref))
+		v.heapSet(s, pc.arr, fmt.Sprintf("(store %s %s %s)", v.heapGet(s, pc.arr), pc.ref, val))
 	}
 }
 
-type protectedCell struct{ arr, ref string }
+type protectedCell struct {
+	arr, ref string
+	alloc    ssa.Value // *ssa.Alloc or *ssa.FreeVar
+	final    bool      // never assigned after initialisation
+}
 
 func (v *FV) mergeSnaps(cs []condSnap) *Snapshot {
 	if len(cs) == 1 {
@@ -808,6 +820,32 @@ func (v *FV) isRefLike(t types.Type) bool {
 		return true
 	case *types.Basic:
 		return u.Kind() == types.UnsafePointer || u.Kind() == types.UntypedNil
+	}
+	return false
+}
+
+func storedInBlocks(a ssa.Value, blocks map[*ssa.BasicBlock]bool) bool {
+	if a == nil {
+		return true
+	}
+	refs := a.Referrers()
+	if refs == nil {
+		return false
+	}
+	for _, r := range *refs {
+		if st, ok := r.(*ssa.Store); ok && st.Addr == a && blocks[st.Block()] {
+			return true
+		}
+		if mc, ok := r.(*ssa.MakeClosure); ok {
+			// a closure created from it may assign it when called inside the loop: be conservative
+			if fn, ok := mc.Fn.(*ssa.Function); ok {
+				for i, b := range mc.Bindings {
+					if b == a && !freeVarReadOnly(fn, i, 0) {
+						return true
+					}
+				}
+			}
+		}
 	}
 	return false
 }
